@@ -515,6 +515,17 @@ func c10fault(nSent, ackH, failAt int, short bool) func() {
 		l.absorb(sc.drainNew())
 		q := c10queue(s.cl)
 		vrt.Log("held %q", q)
+		// the client is still usable: a Send after the failed retransmission returns (with an error, the connection
+		// being what it is) and does not block on anything the failed retransmission left locked
+		sendReturned := false
+		vrt.Go("later-sender", func() {
+			_ = s.cl.Send(stanza.Message{Attrs: stanza.Attrs{To: "peer@example.org", Id: "later", Type: "chat"}, Body: "later"})
+			sendReturned = true
+		})
+		vrt.WaitIdle()
+		if !sendReturned {
+			vrt.Fail("C10|send-blocks-after-failed-retransmission", "history [%s]: a Send made afterwards never returned (alive: %v)", hist, vrt.Alive())
+		}
 		switch c10match(q, must, may) {
 		case "missing":
 			vrt.Fail("C10|unacked-stanza-dropped-on-failed-retransmission", "history [%s]: held queue %q no longer holds the unacknowledged stanzas %q", hist, q, must)
